@@ -213,6 +213,11 @@ def _worker(args):
 
     def evaluate(case, ev):
         pr, level, mode = case
+        try:
+            P.evaluate(pr)      # programs whose result the language does not fix, or that grow exponentially, are not compared
+        except P.OutOfModel:
+            ev.classes["out_of_model"] += 1
+            return None
         if level == "-Q9" and P.has_recursion(pr):
             ev.excluded_known["C02-K8-q9-recursion-diverges"] += 1
             level = "-Q2"
